@@ -11,8 +11,11 @@ pub mod c09;
 pub mod c10;
 pub mod c11;
 pub mod c12;
+pub mod c13;
+pub mod c14;
 pub mod c15;
 pub mod c19;
+pub mod c20;
 
 pub struct Prop {
 	pub id: &'static str,
@@ -33,9 +36,12 @@ pub static PROPS: &[Prop] = &[
 	Prop { id: "C10", run: c10::run, replay: c10::replay },
 	Prop { id: "C11", run: c11::run, replay: c11::replay },
 	Prop { id: "C12", run: c12::run, replay: c12::replay },
+	Prop { id: "C13", run: c13::run, replay: c13::replay },
+	Prop { id: "C14", run: c14::run, replay: c14::replay },
 	Prop { id: "C15", run: c15::run_c15, replay: c15::replay_c15 },
 	Prop { id: "C16", run: c15::run_c16, replay: c15::replay_c16 },
 	Prop { id: "C19", run: c19::run, replay: c19::replay },
+	Prop { id: "C20", run: c20::run, replay: c20::replay },
 ];
 
 pub fn find(id: &str) -> Option<&'static Prop> {
